@@ -462,6 +462,8 @@ func TestVF_C02(t *testing.T) {
 		fails = append(fails, vfC02Fail{j.v, j.mask, out.Why, out.Symptom})
 		mu.Unlock()
 	})
+	// the finishing side's application writes 150 payloads at once while the other side still recovers a lost final flight
+	vfBubbles(t, 21, func(t *testing.T, i int) { vfEarlyDataRun(t, res, i, 150) })
 	for f, d := range lat {
 		res.Max(fmt.Sprintf("worst_latency_ms/f=%02d", f), d.Milliseconds())
 	}
